@@ -77,6 +77,9 @@ DUNDER = {ast.Add: "__add__", ast.Sub: "__sub__", ast.Mult: "__mul__", ast.Div: 
 IDUNDER = {ast.Add: "__iadd__", ast.Sub: "__isub__", ast.Mult: "__imul__", ast.Div: "__itruediv__"}
 
 
+_MISSING = object()
+
+
 def _plain(v):
     """a plain Python value (for which a TypeError / AttributeError is real behaviour, not a gap of the model)"""
     return isinstance(v, (int, float, str, bytes, tuple, list, dict, set, frozenset, type(None), bool, range, Poly))
@@ -144,6 +147,14 @@ class Interp:
                             ci.classmethods.add(it.name)
                         if "staticmethod" in decos:
                             ci.staticmethods.add(it.name)
+                elif isinstance(it, ast.Assign) and all(isinstance(t, ast.Name) for t in it.targets):
+                    # class-level attribute (a default shared by all instances): evaluated in the module's environment
+                    try:
+                        cv = self.ev(it.value, Env(mod))
+                    except Exception:
+                        continue
+                    for t in it.targets:
+                        ci.__dict__.setdefault("class_attrs", {})[t.id] = cv
             g[node.name] = ci
             mod.classes[node.name] = ci
             self.classes[node.name] = ci
@@ -510,6 +521,132 @@ class Interp:
 
     feasible = None
 
+    def choose(self):
+        """a two-way choice that is not a condition on the inputs (which state of a cache the object is in): explored like a
+        branch by run_paths, but nothing is added to the path condition"""
+        if self.pos < len(self.decisions):
+            d = self.decisions[self.pos]
+        else:
+            d = True
+            self.decisions.append(True)
+        self.pos += 1
+        return d
+
+    # ------------------------------------------------------------------ private fields the fixtures do not know (caches)
+    def unknown_private_fields(self, obj):
+        """private fields the class (or a base in the package) assigns that a fixture-built object does not carry"""
+        if getattr(obj, "constructed", False) or obj.cls is None:
+            return []
+        names, seen = [], set()
+
+        def walk(ci):
+            if ci is None or id(ci) in seen:
+                return
+            seen.add(id(ci))
+            if ci.node is not None:
+                for n in ast.walk(ci.node):
+                    if isinstance(n, ast.Attribute) and isinstance(n.ctx, ast.Store) and isinstance(n.value, ast.Name) \
+                            and n.value.id == "self" and n.attr.startswith("_") and not n.attr.startswith("__") \
+                            and n.attr not in obj.fields and n.attr not in names:
+                        names.append(n.attr)
+            for b in ci.bases:
+                walk(self.classes.get(b))
+        walk(obj.cls)
+        return names
+
+    def init_constant(self, ci, name):
+        """the constant __init__ stores in self.<name> (the state of the field in a fresh object), or _MISSING"""
+        hit = ci.find("methods", "__init__", self.classes)
+        if hit is None:
+            return _MISSING
+        for n in ast.walk(hit[0]):
+            if isinstance(n, ast.Assign):
+                for t in n.targets:
+                    if isinstance(t, ast.Attribute) and isinstance(t.value, ast.Name) and t.value.id == "self" and t.attr == name:
+                        return n.value.value if isinstance(n.value, ast.Constant) else _MISSING
+        return _MISSING
+
+    def lazy_filler(self, ci, name):
+        """a getter / method taking only self that fills self.<name> when it is None: `if self.<name> is None: self.<name> = ...`"""
+        def fills(fd):
+            a = fd.args
+            if len(a.args) != 1 or a.vararg or a.kwonlyargs:
+                return False
+            for n in ast.walk(fd):
+                if isinstance(n, ast.If) and isinstance(n.test, ast.Compare) and len(n.test.ops) == 1 and isinstance(n.test.ops[0], ast.Is) \
+                        and isinstance(n.test.left, ast.Attribute) and n.test.left.attr == name \
+                        and isinstance(n.test.comparators[0], ast.Constant) and n.test.comparators[0].value is None:
+                    for m in ast.walk(n):
+                        if isinstance(m, ast.Attribute) and isinstance(m.ctx, ast.Store) and m.attr == name:
+                            return True
+            return False
+        seen = set()
+
+        def walk(c):
+            if c is None or id(c) in seen:
+                return None
+            seen.add(id(c))
+            for table in (c.getters, c.methods):
+                for fd in table.values():
+                    if fills(fd):
+                        return FuncVal(fd, c.module, c)
+            for b in c.bases:
+                r = walk(self.classes.get(b))
+                if r is not None:
+                    return r
+            return None
+        return walk(ci)
+
+    def lazy_value(self, obj, name, v0, filler):
+        """what the filler stores in self.<name> from the object's CURRENT visible state (on a shallow copy), or _MISSING"""
+        cp = Obj(obj.cls, dict(obj.fields))
+        cp.fields[name] = v0
+        cp.cf = {}
+        try:
+            self.call_func(filler, [cp], {})
+        except (PyRaise, ModelError, Unsupported, KeyError, TypeError, AttributeError):
+            return _MISSING
+        return cp.fields.get(name, _MISSING)
+
+    def complete_fixture(self, values):
+        """Objects assembled by a verification fixture know nothing of private fields the code has since added.  Such a
+        field is treated as a CACHE: in the pre-state it is either as __init__ leaves it or as the class's own lazy filler
+        would compute it from the visible state (both explored); check_function then requires every operation to leave it
+        in one of these two states for the POST-state (cache coherence), which makes the pair an inductive invariant."""
+        seen = set()
+
+        def walk(v):
+            if isinstance(v, Obj):
+                if id(v) in seen:
+                    return
+                seen.add(id(v))
+                for x in list(v.fields.values()):
+                    walk(x)
+                names = self.unknown_private_fields(v)
+                if not names:
+                    return
+                info = {}
+                for f in names:
+                    v0 = self.init_constant(v.cls, f)
+                    if v0 is _MISSING:
+                        raise ModelError("the fixture of %s does not define the field '%s' that the class assigns "
+                                         "(and __init__ does not store a constant in it)" % (v.cls.name, f))
+                    v.fields[f] = v0
+                    info[f] = (v0, self.lazy_filler(v.cls, f))
+                v.cf = info
+                for f, (v0, filler) in info.items():
+                    if filler is not None and self.choose():
+                        val = self.lazy_value(v, f, v0, filler)
+                        if val is not _MISSING:
+                            v.fields[f] = val
+            elif isinstance(v, (list, tuple)):
+                for x in v:
+                    walk(x)
+            elif isinstance(v, dict):
+                for x in v.values():
+                    walk(x)
+        walk(values)
+
     def truth(self, v):
         if isinstance(v, (bool, int, float, str, list, tuple, dict, set, type(None), range)):
             return bool(v)
@@ -574,11 +711,17 @@ class Interp:
                 # ufunc(..., out=a): the result is written into `a` in place (every alias of `a` sees it) and `a` is returned
                 kw = dict(kwargs)
                 out = kw.pop("out")
+                where = kw.pop("where", True)
                 if out is None:
+                    if where is not True:
+                        raise Unsupported("ufunc where= without out= (unselected positions uninitialised)")
                     return self.call(f, args, kw)
                 if isinstance(out, tuple) and len(out) == 1:
                     out = out[0]
                 r = self.call(f, args, kw)
+                if where is not True:
+                    # positions where the mask is false keep what `out` held (the operation is not evaluated there)
+                    r = N.NP().where(where, r, out)
                 if not isinstance(out, Arr) or not isinstance(r, Arr) or r.ndim != out.ndim:
                     raise Unsupported("out= with a non-array or a broadcasting result")
                 self.inplace_sites.append(self.loc)
@@ -677,6 +820,21 @@ class Interp:
 
     no_contract = frozenset()
 
+    def class_attr(self, ci, name, seen=None):
+        """class-level attribute default (searching the bases), or _MISSING"""
+        seen = seen if seen is not None else set()
+        if ci is None or id(ci) in seen:
+            return _MISSING
+        seen.add(id(ci))
+        ca = ci.__dict__.get("class_attrs", {})
+        if name in ca:
+            return ca[name]
+        for b in ci.bases:
+            r = self.class_attr(self.classes.get(b), name, seen)
+            if r is not _MISSING:
+                return r
+        return _MISSING
+
     def class_assigns(self, ci, name, seen=None):
         """does the class (or a base) assign self.<name> anywhere?"""
         seen = seen if seen is not None else set()
@@ -715,6 +873,9 @@ class Interp:
                 if name in owner.classmethods:
                     return BoundMethod(v.cls, fv)
                 return BoundMethod(v, fv)
+            ca = self.class_attr(v.cls, name)
+            if ca is not _MISSING:
+                return ca
             if not getattr(v, "constructed", False) and self.class_assigns(v.cls, name):
                 # the object was assembled field by field by a verification fixture, not by its constructor: a field the
                 # class itself assigns somewhere (a new cache, say) is missing from the FIXTURE, not from the object
@@ -946,6 +1107,9 @@ class Interp:
             if isinstance(r, (list, tuple, set, dict, str)):
                 res = any((l is x) or (type(l) is type(x) and not isinstance(l, (Poly, Arr)) and l == x) for x in r) \
                     if not isinstance(r, (str, dict)) else (l in r)
+            elif isinstance(r, H5Group) and isinstance(l, str):
+                N.used("h5py.__contains__")
+                res = l in r.items           # h5py: `name in group` -- is there a member of that name
             else:
                 raise Unsupported("membership test in %s" % type(r).__name__)
             return res if isinstance(op, ast.In) else not res
